@@ -537,6 +537,126 @@ func c12PositionRecorded(w *World, r *Report) {
 		})
 	}
 	r.note("%s: %d Field constructions, %d diagnostics read their line from Field.Line", rule, len(allocs), n)
+	// positions kept in a side table: `Line: fieldLine[f.Name]` needs fieldLine to be filled from token positions
+	cnt := map[string]int{}
+	for _, fn := range fns {
+		forEachInstr(fn, func(b *ssa.BasicBlock, ins ssa.Instruction) {
+			st, ok := ins.(*ssa.Store)
+			if !ok {
+				return
+			}
+			fa, ok := st.Addr.(*ssa.FieldAddr)
+			if !ok {
+				return
+			}
+			tn, member, _, _ := fieldOf(fa)
+			if tn != "SyntaxError" || (member != "Line" && member != "Column") {
+				return
+			}
+			lk, ok := stripIdentity(st.Val).(*ssa.Lookup)
+			if !ok || lk.CommaOk {
+				return
+			}
+			if _, isMap := lk.X.Type().Underlying().(*types.Map); !isMap {
+				return
+			}
+			root := valueRoot(lk.X)
+			skey := structFieldKey(lk.X)
+			// a table handed in by the callers: the maps they pass
+			roots := map[ssa.Value]bool{root: true}
+			if p, isParam := root.(*ssa.Parameter); isParam {
+				pidx := -1
+				for i, q := range fn.Params {
+					if q == p {
+						pidx = i
+					}
+				}
+				for _, g := range fns {
+					forEachInstr(g, func(_ *ssa.BasicBlock, i2 ssa.Instruction) {
+						if c, ok := i2.(ssa.CallInstruction); ok && c.Common().StaticCallee() == fn && pidx >= 0 && pidx < len(c.Common().Args) {
+							roots[valueRoot(c.Common().Args[pidx])] = true
+						}
+					})
+				}
+			}
+			filled := false
+			for _, g := range fns {
+				forEachInstr(g, func(_ *ssa.BasicBlock, i2 ssa.Instruction) {
+					mu, ok := i2.(*ssa.MapUpdate)
+					if !ok {
+						return
+					}
+					same := false
+					if mr := valueRoot(mu.Map); roots[mr] {
+						if _, isMk := mr.(*ssa.MakeMap); isMk {
+							same = true
+						}
+					}
+					if skey != "" && structFieldKey(mu.Map) == skey {
+						same = true
+					}
+					if !same {
+						return
+					}
+					if derivesFromPosition(mu.Value, 0) {
+						filled = true
+					}
+				})
+			}
+			cnt[fnKey(fn)+member]++
+			key := fmt.Sprintf("%s: the table a diagnostic takes its %s from is filled from token positions #%d", fnKey(fn), strings.ToLower(member), cnt[fnKey(fn)+member])
+			if filled {
+				r.pass(rule, key, w.instrPos(ins), "")
+			} else {
+				r.fail(rule, key, w.instrPos(ins), "the diagnostic's "+strings.ToLower(member)+" is looked up in a side table that no code fills from a token position: the offence is reported at "+strings.ToLower(member)+" 0")
+			}
+		})
+	}
+}
+
+// derivesFromPosition: v is (computed from) a GetLine / GetColumn / GetCharPositionInLine result.
+func derivesFromPosition(v ssa.Value, depth int) bool {
+	if depth > 6 || v == nil {
+		return false
+	}
+	switch x := stripIdentity(v).(type) {
+	case *ssa.Call:
+		name := ""
+		if x.Call.IsInvoke() {
+			name = x.Call.Method.Name()
+		} else if f := x.Call.StaticCallee(); f != nil {
+			name = f.Name()
+		}
+		return name == "GetLine" || name == "GetColumn" || name == "GetCharPositionInLine"
+	case *ssa.Phi:
+		for _, e := range x.Edges {
+			if derivesFromPosition(e, depth+1) {
+				return true
+			}
+		}
+	case *ssa.BinOp:
+		return derivesFromPosition(x.X, depth+1) || derivesFromPosition(x.Y, depth+1)
+	case *ssa.Convert:
+		return derivesFromPosition(x.X, depth+1)
+	case *ssa.Parameter:
+		return isInt(x.Type()) // a position handed in: judged where it was taken
+	case *ssa.UnOp:
+		if x.Op == token.MUL {
+			if al, ok := x.X.(*ssa.Alloc); ok && al.Referrers() != nil {
+				for _, ref := range *al.Referrers() {
+					if st, ok := ref.(*ssa.Store); ok && st.Addr == ssa.Value(al) && derivesFromPosition(st.Val, depth+1) {
+						return true
+					}
+				}
+			}
+		}
+	}
+	return false
+}
+
+func isInt(t types.Type) bool {
+	b, ok := t.Underlying().(*types.Basic)
+	return ok && b.Info()&types.IsInteger != 0
 }
 
 // */whole-input: everything the author wrote is parsed.
@@ -979,5 +1099,247 @@ func computedFieldsSingle(w *World, r *Report, prop string) {
 	}
 	if n == 0 {
 		r.fail(rule, "computed-field constructions found", "internal/parser/packet_dsl_parser.go", "no store of a length / checksum attribute into a field found in the parse phase")
+	}
+}
+
+// C08/type-mapping-siblings: "a MetaData-typed field versus the inlined type ... produce byte-identical outputs".
+//
+// A type written in a MetaData entry and the same type written on a field are turned into attributes by two separate routines.
+// Whatever one of them does for a spelling - which attribute it constructs, under which tests of the type context, with which
+// length, pad character and pad side - the other has to do as well. Decided as a sibling cross-check: every parse-phase function that
+// constructs at least two of the scalar / fixed-string / dynamic-string attributes under tests of a `type` context is a type mapper;
+// all type mappers must have the same set of (attribute, members set and how, facts on the path) outcomes.
+func c08TypeMappingSiblings(w *World, r *Report) {
+	const rule = "C08/type-mapping-siblings"
+	kinds := map[string]bool{"BasicFieldAttribute": true, "FixedStringFieldAttribute": true, "DynamicStringFieldAttribute": true}
+	valueClass := func(v ssa.Value) string {
+		v = stripIdentity(v)
+		switch x := v.(type) {
+		case *ssa.Const:
+			if s, ok := constString(x); ok {
+				return fmt.Sprintf("%q", s)
+			}
+			if x.Value != nil {
+				return x.Value.String()
+			}
+			return "nil"
+		case *ssa.Alloc:
+			// a nested literal (Padding{...}): its members
+			var parts []string
+			if x.Referrers() != nil {
+				for _, ref := range *x.Referrers() {
+					if fa, ok := ref.(*ssa.FieldAddr); ok && fa.Referrers() != nil {
+						_, fname, _, _ := fieldOf(fa)
+						for _, r2 := range *fa.Referrers() {
+							if st, ok := r2.(*ssa.Store); ok && st.Addr == ssa.Value(fa) {
+								if k, ok := st.Val.(*ssa.Const); ok {
+									if s, ok := constString(k); ok {
+										parts = append(parts, fmt.Sprintf("%s:%q", fname, s))
+									} else if k.Value != nil {
+										parts = append(parts, fname+":"+k.Value.String())
+									}
+								} else {
+									parts = append(parts, fname+":computed")
+								}
+							}
+						}
+					}
+				}
+			}
+			sort.Strings(parts)
+			return "{" + strings.Join(parts, ",") + "}"
+		case *ssa.Extract:
+			if c, ok := x.Tuple.(*ssa.Call); ok && c.Call.StaticCallee() != nil {
+				return c.Call.StaticCallee().Name() + "(..)"
+			}
+		case *ssa.Call:
+			if x.Call.IsInvoke() {
+				return x.Call.Method.Name() + "()"
+			}
+			if f := x.Call.StaticCallee(); f != nil {
+				return f.Name() + "(..)"
+			}
+		}
+		return "computed"
+	}
+	// facts: the tests that dominate a block, described by what is tested (accessor / call with its constant arguments) and polarity
+	describeTest := func(cond ssa.Value) (string, int, bool) {
+		val := true
+		for {
+			if u, ok := cond.(*ssa.UnOp); ok && u.Op == token.NOT {
+				cond, val = u.X, !val
+				continue
+			}
+			break
+		}
+		succ := func(holdsWhenTrue bool) int {
+			if holdsWhenTrue == val {
+				return 0
+			}
+			return 1
+		}
+		callDesc := func(v ssa.Value) string {
+			c, ok := stripIdentity(v).(*ssa.Call)
+			if !ok {
+				return ""
+			}
+			name := ""
+			var args []ssa.Value
+			if c.Call.IsInvoke() {
+				name, args = c.Call.Method.Name(), c.Call.Args
+			} else if f := c.Call.StaticCallee(); f != nil {
+				name, args = f.Name(), c.Call.Args
+			}
+			var ks []string
+			for _, a := range args {
+				if s, ok := constString(a); ok {
+					ks = append(ks, fmt.Sprintf("%q", s))
+				}
+			}
+			return name + "(" + strings.Join(ks, ",") + ")"
+		}
+		switch x := cond.(type) {
+		case *ssa.BinOp:
+			if x.Op == token.EQL || x.Op == token.NEQ {
+				var o ssa.Value
+				if isNilConst(x.X) {
+					o = x.Y
+				} else if isNilConst(x.Y) {
+					o = x.X
+				}
+				if o != nil {
+					if d := callDesc(o); d != "" {
+						return "present:" + d, succ(x.Op == token.NEQ), true
+					}
+				}
+			}
+		case *ssa.Call:
+			if d := callDesc(x); d != "" {
+				return d, succ(true), true
+			}
+		}
+		return "", 0, false
+	}
+	type mapper struct {
+		fn   *ssa.Function
+		sigs map[string]bool
+		made map[string]bool
+	}
+	var mappers []*mapper
+	for _, fn := range parsePhaseFuncs(w) {
+		m := &mapper{fn: fn, sigs: map[string]bool{}, made: map[string]bool{}}
+		typeTested := false
+		forEachInstr(fn, func(b *ssa.BasicBlock, ins ssa.Instruction) {
+			al, ok := ins.(*ssa.Alloc)
+			if !ok || !al.Heap {
+				return
+			}
+			kind := modelTypeName(al.Type().(*types.Pointer).Elem())
+			if !kinds[kind] {
+				return
+			}
+			// members
+			var members []string
+			if al.Referrers() != nil {
+				for _, ref := range *al.Referrers() {
+					if fa, ok := ref.(*ssa.FieldAddr); ok && fa.Referrers() != nil {
+						_, fname, _, _ := fieldOf(fa)
+						for _, r2 := range *fa.Referrers() {
+							if st, ok := r2.(*ssa.Store); ok && st.Addr == ssa.Value(fa) {
+								members = append(members, fname+"="+valueClass(st.Val))
+							}
+						}
+					}
+				}
+			}
+			sort.Strings(members)
+			var facts []string
+			for _, bb := range fn.Blocks {
+				cond := branchCond(bb)
+				if cond == nil {
+					continue
+				}
+				d, ts, ok := describeTest(cond)
+				if !ok {
+					continue
+				}
+				if edgeDominates(bb, ts, b) {
+					facts = append(facts, "+"+d)
+				}
+				if edgeDominates(bb, 1-ts, b) {
+					facts = append(facts, "-"+d)
+				}
+			}
+			sort.Strings(facts)
+			for _, f := range facts {
+				if strings.Contains(f, "BasicType") || strings.Contains(f, "FixedString") || strings.Contains(f, "DynamicString") {
+					typeTested = true
+				}
+			}
+			m.made[kind] = true
+			m.sigs[kind+"{"+strings.Join(members, ",")+"} when ["+strings.Join(facts, " ")+"]"] = true
+		})
+		if typeTested && len(m.made) >= 2 {
+			mappers = append(mappers, m)
+		}
+	}
+	if len(mappers) == 0 {
+		r.fail(rule, "type mappers found", "internal/parser/packet_dsl_parser.go", "no parse-phase routine turns a type context into scalar / fixed-string / dynamic-string attributes")
+		return
+	}
+	if len(mappers) == 1 {
+		r.pass(rule, fnKey(mappers[0].fn)+" is the only routine that maps types to attributes", w.pos(mappers[0].fn.Pos()), strings.Join(sortedBoolKeys(mappers[0].sigs), "; "))
+		return
+	}
+	// reference: the signature set shared by most mappers
+	count := map[string]int{}
+	sigOf := map[*mapper]string{}
+	for _, m := range mappers {
+		s := strings.Join(sortedBoolKeys(m.sigs), "; ")
+		sigOf[m] = s
+		count[s]++
+	}
+	best := ""
+	for s, n := range count {
+		if n > count[best] || (n == count[best] && s < best) {
+			best = s
+		}
+	}
+	allSame := len(count) == 1
+	for _, m := range mappers {
+		key := fnKey(m.fn) + " maps a written type to the same attribute as its sibling(s)"
+		if allSame || (sigOf[m] == best && count[best] > 1) {
+			r.pass(rule, key, w.pos(m.fn.Pos()), sigOf[m])
+			continue
+		}
+		// name the differences
+		other := best
+		if sigOf[m] == best {
+			for s := range count {
+				if s != best {
+					other = s
+				}
+			}
+		}
+		mine, theirs := map[string]bool{}, map[string]bool{}
+		for _, x := range strings.Split(sigOf[m], "; ") {
+			mine[x] = true
+		}
+		for _, x := range strings.Split(other, "; ") {
+			theirs[x] = true
+		}
+		var diff []string
+		for x := range mine {
+			if !theirs[x] {
+				diff = append(diff, "only here: "+x)
+			}
+		}
+		for x := range theirs {
+			if !mine[x] {
+				diff = append(diff, "only in the sibling: "+x)
+			}
+		}
+		sort.Strings(diff)
+		r.fail(rule, key, w.pos(m.fn.Pos()), "the routines that turn a written type into an attribute disagree - a MetaData-typed field and the same type written inline then differ: "+strings.Join(diff, " | "))
 	}
 }
